@@ -1,5 +1,6 @@
 (* C04/C05 layer 2 — the step theorem, reachability, and the statements about signals. *)
 From Acme.C04 Require Export Proofs_RegStep.
+From Acme.C04 Require Import Proofs_Size.
 From Coq Require Import Lia.
 
 Lemma l3_clear_one u g c s : l3 (clear_one u g c s) = l3 s.
@@ -8,7 +9,7 @@ Proof.
 Qed.
 
 Lemma l3_step2_other s o :
-  match o with L3 _ | NewStd2 _ _ | NewEnum2 _ _ | NewMux2 _ _ _ | EnumClone _ | EvalClone _ => False | _ => True end →
+  match o with L3 _ | NewStd2 _ _ | NewEnum2 _ _ | NewMux2 _ _ _ | EnumClone _ | EvalClone _ | MsgResize _ _ _ | BusSetType _ _ => False | _ => True end →
   l3 (step2 s o).1 = l3 s.
 Proof.
   destruct o; try done; intros _; cbn [step2].
@@ -86,19 +87,42 @@ Proof.
   intros Hi. unfold eval_clone. destruct (evals (base (l3 s)) !! v) as [V|]; [|exact Hi]. by apply inv2_l3.
 Qed.
 
+(* ---- size of a message, type of a bus: only the layer-1 heap changes, in a field no index reads ------- *)
+Lemma inv2_set_base s b : Inv2 s → Inv b → next b = next (base (l3 s)) → Inv2 (set_base s b).
+Proof.
+  intros [[Hi Hrefs] [Hc Hg]] Hb Hn. split; [split|split].
+  - exact Hb.
+  - destruct Hrefs. split; cbn; rewrite ?Hn; done.
+  - eapply core_frame; [..|exact Hc]; try done. unfold next2, set_base. cbn. rewrite Hn. lia.
+  - intros u. by eapply groups_frame; [..|apply Hg].
+Qed.
+
+Lemma inv2_msg_resize s m n f : Inv2 s → Inv2 (msg_resize s m n f).1.
+Proof.
+  intros Hi. unfold msg_resize. destruct (msgs (base (l3 s)) !! m) as [M|] eqn:HM; [|exact Hi].
+  repeat (case_match; [exact Hi|]). cbn. apply inv2_set_base; [done| |done].
+  apply inv_msg_size; [apply Hi|done].
+Qed.
+
+Lemma inv2_bus_set_type s b t : Inv2 s → Inv2 (bus_set_type s b t).1.
+Proof.
+  intros Hi. unfold bus_set_type. destruct (buses (base (l3 s)) !! b) as [B|] eqn:HB; [|exact Hi].
+  cbn. apply inv2_set_base; [done| |done]. apply inv_bus_type; [apply Hi|done].
+Qed.
+
 Theorem inv2_step s o : Inv2 s → op_ok2 s o → Inv2 (step2 s o).1.
 Proof.
   intros Hi Hok.
-  destruct (match o with EnumClone _ | EvalClone _ => true | _ => false end) eqn:Hcl.
-  { destruct o; try discriminate Hcl; [by apply inv2_enum_clone|by apply inv2_eval_clone]. }
+  destruct (match o with EnumClone _ | EvalClone _ | MsgResize _ _ _ | BusSetType _ _ => true | _ => false end) eqn:Hcl.
+  { destruct o; try discriminate Hcl; [by apply inv2_enum_clone|by apply inv2_eval_clone|by apply inv2_msg_resize|by apply inv2_bus_set_type]. }
   destruct Hi as [H3 Hr]. split.
-  - destruct o as [o|nm ot|nm oe|nm c g| | | | | | | | | |]; try discriminate Hcl; try (rewrite l3_step2_other by done; exact H3).
+  - destruct o as [o|nm ot|nm oe|nm c g| | | | | | | | | | | |]; try discriminate Hcl; try (rewrite l3_step2_other by done; exact H3).
     + cbn [step2]. unfold lift3. pose proof (inv3_step (l3 s) o H3 Hok). by destruct (step3 (l3 s) o).
     + cbn [step2]. rewrite l3_new_signal. by apply inv3_step.
     + cbn [step2]. rewrite l3_new_signal. by apply inv3_step.
     + cbn [step2]. unfold new_mux2. repeat (case_match; [done|]). unfold lift3.
       pose proof (inv3_step (l3 s) (L1 NewOther) H3 I). by destruct (step3 (l3 s) (L1 NewOther)).
-  - destruct o as [o|nm ot|nm oe|nm c g|m [x|] f|m k|m|x nm|u [x|] f ids|u k|u g|u|e|v]; try discriminate Hcl; cbn [step2].
+  - destruct o as [o|nm ot|nm oe|nm c g|m [x|] f|m k|m|x nm|u [x|] f ids|u k|u g|u|e|v|m n f|b t]; try discriminate Hcl; cbn [step2].
     + unfold lift3. pose proof (next3_mono (l3 s) o). destruct (step3 (l3 s) o) as [t r] eqn:Hs. cbn in *. by apply regok_lift.
     + apply regok_new_signal; [|done]. intros t. apply new_std_next.
     + apply regok_new_signal; [|done]. intros t. apply new_enum_next.
